@@ -12,6 +12,10 @@ def edits(rng, s):
     out = []
     for m in RESERVED_RE.finditer(s):
         out.append(('delete-reserved:' + m.group(1), s[:m.start()] + s[m.end():]))
+        # the separator that makes the closing word a reserved word: without it `esac`/`fi`/`done`/`}` is an argument
+        pre = re.search(r'(;;&|;;|;&|;|\n)[ \t]*$', s[:m.start()])
+        if pre and m.group(1) in ('esac', 'fi', 'done', 'then', 'do', 'else', 'elif', '}'):
+            out.append(('delete-separator-before:' + m.group(1), s[:pre.start()] + ' ' + s[m.start():]))
         out.append(('duplicate-reserved:' + m.group(1), s[:m.end()] + ' ' + m.group(1) + s[m.end():]))
     for ch in '(){}':
         for m in re.finditer(re.escape(ch), s):
@@ -35,7 +39,7 @@ def edits(rng, s):
     out.append(('unclosed-subshell', '( ' + s.rstrip('\n')))
     out.append(('unclosed-substitution', 'a $(' + s.rstrip('\n')))
     rng.shuffle(out)
-    return out[:10]
+    return out[:12]
 
 def bash_rejects(script):
     try:
